@@ -117,6 +117,8 @@ deriving DecidableEq, Repr, Inhabited
 
 abbrev Parser := ExceptT PErr Prog
 
+deriving instance DecidableEq for Except
+
 namespace Parser
 
 def byte : Parser UInt8 := ExceptT.mk (Prog.readByte fun r =>
